@@ -17,6 +17,7 @@ RULE = (
     ">=1 edge compared; distinct = distinct shape signatures. Modules and "
     "patches as in C01 (zero-sized input blocks take and pass on "
     "fallthrough, return and branch edges)."
+    " Second module in the IR as in C01: its blocks and its edges in ir.cfg must be unchanged."
 )
 RULE += (
     " More calls into one function and more function-centred edit sets (incl. a second returning patch) than the other listing checks; pairs of call blocks to one callee of which one is deleted, callees with many call sites that always return."
@@ -41,4 +42,5 @@ def run_case(case):
         v, c = oracles.check_cfg(a.run, a.lst, a.ob)
         a.viol += v
         a.ctr.update(c)
+    rwbase.bystander(a, PROP)
     return rwbase.result(a)
